@@ -12,3 +12,4 @@ for c in "$@"; do
   (cd /verif && VERIF_REPO=$WT ./check $c quick 2>&1 | grep -E "^VIOLATION|^KNOWN|\] (quick|thorough)" | cut -c1-300 | head -12)
 done
 git -C /repo worktree remove --force $WT
+/verif/tools/clean_override.sh $WT
